@@ -576,6 +576,20 @@ func (e *Env) eval(t *Term) Val {
 		r, o, l := a(0), a(1), a(2)
 		return Val{K: TRef, R: h64("slice", valKey(r), o.I, l.I)}
 	case "len":
+		// the length of a slice-valued field of a row of a read-only literal table of records
+		if u := t.Args[0]; (u.Op == "at" || u.Op == "ld") && len(u.Args) == 3 && u.Args[0].K == KSym {
+			if tab := e.Tables[u.Args[0].Sym]; tab != nil {
+				if iv := e.Eval(u.Args[1]); iv.K == TInt && iv.I >= 0 && iv.I < int64(len(tab)) {
+					if el := tab[iv.I]; el.K == TTuple && el.S == "rec" {
+						if f, ok := u.Args[2].StrVal(); ok {
+							if v, has := recTables[el.R][f+"#len"]; has {
+								return v
+							}
+						}
+					}
+				}
+			}
+		}
 		x := a(0)
 		return e.lenOfRef(t.Args[0], x)
 	}
